@@ -436,9 +436,7 @@ func runC08(r *mon.Run) {
 	// selector passed as *ECDSAOptions or as a bare crypto.Hash: signed iff the length is
 	// exactly the size of the selected hash (and at least 32 bytes), an error otherwise; Verify
 	// with the same selector accepts only what Sign may have signed
-	hashSize := map[crypto.Hash]int{crypto.MD4: 16, crypto.MD5: 16, crypto.SHA1: 20, crypto.SHA224: 28, crypto.SHA256: 32, crypto.SHA384: 48, crypto.SHA512: 64,
-		crypto.MD5SHA1: 36, crypto.RIPEMD160: 20, crypto.SHA3_224: 28, crypto.SHA3_256: 32, crypto.SHA3_384: 48, crypto.SHA3_512: 64, crypto.SHA512_224: 28,
-		crypto.SHA512_256: 32, crypto.BLAKE2s_256: 32, crypto.BLAKE2b_256: 32, crypto.BLAKE2b_384: 48, crypto.BLAKE2b_512: 64}
+	hashSize := stdHashSize
 	lens := []int{0, 16, 20, 28, 31, 32, 33, 36, 47, 48, 49, 63, 64, 65, 66, 72, 96, 128, 129, 200}
 	r.Require("c08:matrix:signed", "c08:matrix:refused", "c08:matrix:len>64", "c08:matrix:selfverify")
 	r.Each("c08/hash-matrix", 20*len(lens), func(w *mon.W, i int) {
@@ -634,3 +632,9 @@ func runC08(r *mon.Run) {
 	// results that are functions of the arguments alone do not depend on the process-wide system entropy stream
 	runDegradedEntropy(r, "c08", r.N(40, 600), "rfc6979", "hedged")
 }
+
+// stdHashSize: digest sizes of the hash identifiers the standard library defines, typed from
+// the standards (not read from crypto.Hash.Size, which the library itself uses).
+var stdHashSize = map[crypto.Hash]int{crypto.MD4: 16, crypto.MD5: 16, crypto.SHA1: 20, crypto.SHA224: 28, crypto.SHA256: 32, crypto.SHA384: 48, crypto.SHA512: 64,
+	crypto.MD5SHA1: 36, crypto.RIPEMD160: 20, crypto.SHA3_224: 28, crypto.SHA3_256: 32, crypto.SHA3_384: 48, crypto.SHA3_512: 64, crypto.SHA512_224: 28,
+	crypto.SHA512_256: 32, crypto.BLAKE2s_256: 32, crypto.BLAKE2b_256: 32, crypto.BLAKE2b_384: 48, crypto.BLAKE2b_512: 64}
